@@ -6,6 +6,8 @@ import Chewing.Proofs.TrieLayout
 import Chewing.Proofs.TrieLookup
 import Chewing.Proofs.TrieSpec
 import Chewing.Proofs.TrieDoc
+import Chewing.Proofs.TrieFuzzy
+import Chewing.Proofs.TrieOrder
 /-!
 # C11 — A trie dictionary file returns exactly what was put in, in the documented order
 
@@ -42,14 +44,183 @@ def OrderDocumented (ps result : List Phrase) : Prop :=
   ((∀ p ∈ ps, p.text.length = 1) → result = ps) ∧
   ((∀ p ∈ ps, p.text.length ≠ 1) → result.Pairwise (fun a b => b.freq ≤ a.freq))
 
-/-- every syllable of the key begins with the corresponding partial syllable, same length -/
-def fuzzyMatch : List Nat → List Nat → Bool
-  | [], [] => true
-  | s :: k, p :: q => startsWith s p && fuzzyMatch k q
-  | _, _ => false
-
-/-- a list of (key, inserted phrase vector) groups holding each key satisfying `P` exactly once -/
+/-- `groups` holds exactly the inserted keys satisfying `P`, each once, with its phrase vector -/
 def GroupsOf (es : List Entry) (P : List Nat → Prop) (groups : List (List Nat × List Phrase)) : Prop :=
   (groups.map (·.1)).Nodup ∧ ∀ k ps, (k, ps) ∈ groups ↔ (inserted es k = some ps ∧ P k)
+
+/-- what a reader returns for a group: the leaf in its written order -/
+def leafOut (g : List Nat × List Phrase) : List Phrase := sortLeaf g.2
+
+/-! ## stage A: DER shapes, phrase records, determinism, builder semantics -/
+
+/-- definite length, minimal form -/
+theorem der_roundtrip_length (n : Nat) (r : Bytes) (h : n ≤ maxLen) : decLen (encLen n ++ r) = some (n, r) :=
+  decLen_encLen n r h
+
+/-- UTF8String -/
+theorem der_roundtrip_utf8 (t : Text) (r : Bytes) (h : ∀ c ∈ t, IsScalar c) (hl : (utf8Enc t).length ≤ maxLen) :
+    decUtf8 (encUtf8 t ++ r) = some (t, r) := decUtf8_encUtf8 t r h hl
+
+/-- INTEGER for the `u8` (version), `u32` (freq) and `u64` (timestamp) uses -/
+theorem der_roundtrip_uint (w v : Nat) (r : Bytes) (hw : w = 1 ∨ w = 4 ∨ w = 8) (hv : v < 256 ^ w) :
+    decUint w (encUint w v ++ r) = some (v, r) := by
+  rcases hw with rfl | rfl | rfl <;> exact decUint_encUint _ v r (by decide) (by decide) hv
+
+/-- OCTET STRING -/
+theorem der_roundtrip_octets (b r : Bytes) (hl : b.length ≤ maxLen) : decOctets (encOctets b ++ r) = some (b, r) :=
+  decOctets_encOctets b r hl
+
+/-- SEQUENCE (`read_nested`: the body has to be consumed exactly) -/
+theorem der_roundtrip_sequence {α : Type} (f : Bytes → Option (α × Bytes)) (body r : Bytes) (a : α)
+    (hf : f body = some (a, [])) (h : body.length ≤ maxLen) : decSeq f (encSeq body ++ r) = some (a, r) :=
+  decSeq_encSeq f body r a hf h
+
+/-- `[0] IMPLICIT Uint64 OPTIONAL` at the end of a record -/
+theorem der_roundtrip_ctx0 (o : Option Nat) (ho : ∀ v, o = some v → v < 256 ^ 8) :
+    decCtx0U64 (encCtx0U64 o) = some (o, []) := decCtx0U64_enc o ho
+
+/-- a phrase record decodes to the phrase, text, frequency and timestamp -/
+theorem phrase_roundtrip (p : Phrase) (r : Bytes) (hv : ValidPhrase p) (hl : (encPhrase p).length ≤ maxLen) :
+    decPhrase (encPhrase p ++ r) = some (p, r) := decPhrase_encPhrase p r hv hl
+
+/-- a leaf's slice decodes to exactly the phrases written, in order -/
+theorem phrase_seq_roundtrip (ps : List Phrase) (hv : ∀ p ∈ ps, ValidPhrase p ∧ (encPhrase p).length ≤ maxLen) :
+    decPhrases (encPhrases ps) = ps := decPhrases_encPhrases ps hv
+
+/-- equal input gives byte-identical files: the written bytes are a function of metadata and the
+    sequence of inserts (the implementation's agreement with this function is the byte-for-byte
+    correspondence; the harness also writes every input twice) -/
+theorem deterministic (info info' : Info) (es es' : List Entry) (hi : info = info') (he : es = es') :
+    (TrieCodec.Builder.ofEntries info es).write = (TrieCodec.Builder.ofEntries info' es').write := by
+  subst hi; subst he; rfl
+
+/-- `insert` is a map update: the phrase replaces the stored phrase with the same text where it
+    stood, or is appended; other keys are untouched -/
+theorem insert_semantics (b : TrieCodec.Builder) (k k' : List Nat) (p : Phrase) :
+    (b.insert k p).find k' = if k' = k then some (upsert ((b.find k).getD []) p) else b.find k' :=
+  find_insert b k k' p
+
+/-- re-insert replaces in place: the texts of the leaf keep their positions, and the stored
+    phrase with the re-inserted text is the new one -/
+theorem reinsert_replaces (ps : List Phrase) (p : Phrase) (hnd : (ps.map (·.text)).Nodup)
+    (hin : p.text ∈ ps.map (·.text)) :
+    (upsert ps p).map (·.text) = ps.map (·.text) ∧ ∀ q ∈ upsert ps p, q.text = p.text → q = p := by
+  refine ⟨?_, upsert_find ps p hnd⟩
+  rw [upsert_texts, if_pos hin]
+
+/-- the builder built from an entry list is the reference map -/
+theorem builder_is_map (info : Info) (es : List Entry) (k : List Nat) :
+    (TrieCodec.Builder.ofEntries info es).find k = inserted es k := find_ofEntries info es k
+
+/-! ## stage B: layout and exact lookups -/
+
+/-- `bfs_layout`: in the buffers of `write` every node's record holds the index range of exactly
+    its leaf and its sorted children (`Laid`), from the loop invariant
+    `written ++ queue = enqueued`, `child_begin = |enqueued|` -/
+theorem bfs_layout (b : TrieCodec.Builder) (hb : b.WF) (recs : List Rec) (data : Bytes)
+    (h : b.buffers = some (recs, data)) (hr : recs.length < 4294967296) (hd : data.length < 4294967296) :
+    Laid recs data 0 b.root := TrieCodec.bfs_layout b hb recs data h hr hd
+
+/-- inside the format's limits `write` does not fail -/
+theorem writes_within_limits (b : TrieCodec.Builder) (hf : b.Fits) : b.write.isSome = true := write_isSome b hf
+
+/-- the real reader on a written file: metadata, and every lookup is the walk on the builder tree -/
+theorem read_write (b : TrieCodec.Builder) (hb : b.WF) (hi : ValidInfo b.info) (bytes : Bytes) (hw : b.write = some bytes) :
+    ∃ t, openTrie bytes = some t ∧ about t = b.info ∧
+      ∀ st key, ValidKey key → lookupAll t key st = tLookup st key b.root := by
+  obtain ⟨recs, data, hbuf, _, hopen, hr, hd⟩ := openTrie_write b hi bytes hw
+  refine ⟨_, hopen, rfl, ?_⟩
+  intro st key hkey
+  exact lookupAll_eq_tLookup (TrieCodec.bfs_layout b hb recs data hbuf hr hd) (root_pre b hb) ⟨_, _, rfl⟩ st key hkey
+
+/-- `info_roundtrip`: writing and reading back gives identical metadata -/
+theorem info_roundtrip (info : Info) (es : List Entry) (hv : ValidInput info es) (bytes : Bytes)
+    (hw : (TrieCodec.Builder.ofEntries info es).write = some bytes) :
+    ∃ t, openTrie bytes = some t ∧ about t = info := by
+  have hi : ValidInfo (TrieCodec.Builder.ofEntries info es).info := by rw [info_ofEntries]; exact hv.1
+  obtain ⟨t, h1, h2, _⟩ := read_write _ (WF_ofEntries info es hv.2) hi bytes hw
+  exact ⟨t, h1, by rw [h2, info_ofEntries]⟩
+
+/-- `lookup_correct`: an exact lookup returns the phrases inserted for the key (last insert of a
+    text wins), as the writer ordered them; nothing for a key never inserted -/
+theorem lookup_correct (info : Info) (es : List Entry) (hv : ValidInput info es) (bytes : Bytes)
+    (hw : (TrieCodec.Builder.ofEntries info es).write = some bytes) :
+    ∃ t, openTrie bytes = some t ∧
+      ∀ k, ValidKey k → lookupAll t k .standard = sortLeaf ((inserted es k).getD []) := by
+  have hwf := WF_ofEntries info es hv.2
+  have hi : ValidInfo (TrieCodec.Builder.ofEntries info es).info := by rw [info_ofEntries]; exact hv.1
+  obtain ⟨t, h1, _, h3⟩ := read_write _ hwf hi bytes hw
+  refine ⟨t, h1, ?_⟩
+  intro k hk
+  rw [h3 .standard k hk, TrieCodec.Builder.root, tLookup_standard k hk 0 _ _ hwf.2]
+  have := find_ofEntries info es k
+  unfold TrieCodec.Builder.find at this
+  rw [this]
+  unfold inserted
+  cases refFind es k <;> rfl
+
+/-- `absent_key_empty` -/
+theorem absent_key_empty (info : Info) (es : List Entry) (hv : ValidInput info es) (bytes : Bytes)
+    (hw : (TrieCodec.Builder.ofEntries info es).write = some bytes) :
+    ∃ t, openTrie bytes = some t ∧ ∀ k, ValidKey k → inserted es k = none → lookupAll t k .standard = [] := by
+  obtain ⟨t, h1, h2⟩ := lookup_correct info es hv bytes hw
+  refine ⟨t, h1, fun k hk hn => ?_⟩
+  rw [h2 k hk, hn]
+  rfl
+
+/-! ## stage C: order, fuzzy lookups -/
+
+/-- `order_documented`: what the writer does to a leaf -/
+theorem order_documented (ps : List Phrase) : OrderDocumented ps (sortLeaf ps) :=
+  ⟨sortLeaf_perm ps, sortLeaf_single ps, sortLeaf_multi_freq ps⟩
+
+/-- `fuzzy_correct`: a fuzzy prefix lookup returns, leaf after leaf, exactly the inserted keys with
+    the query's number of syllables whose every syllable begins with the corresponding partial
+    syllable (`startsWith`), each once -/
+theorem fuzzy_correct (info : Info) (es : List Entry) (hv : ValidInput info es) (bytes : Bytes)
+    (hw : (TrieCodec.Builder.ofEntries info es).write = some bytes) :
+    ∃ t, openTrie bytes = some t ∧
+      ∀ q, ValidKey q → ∃ groups, GroupsOf es (fun k => fuzzyMatch k q = true) groups ∧
+        lookupAll t q .fuzzyPartialPrefix = groups.flatMap leafOut := by
+  have hwf := WF_ofEntries info es hv.2
+  have hi : ValidInfo (TrieCodec.Builder.ofEntries info es).info := by rw [info_ofEntries]; exact hv.1
+  obtain ⟨t, h1, _, h3⟩ := read_write _ hwf hi bytes hw
+  refine ⟨t, h1, ?_⟩
+  intro q hq
+  refine ⟨fuzzyGroups q (TrieCodec.Builder.ofEntries info es).root, ⟨?_, ?_⟩, ?_⟩
+  · exact fuzzyGroups_nodup q hq 0 _ _ hwf.2
+  · intro k ps
+    rw [TrieCodec.Builder.root, mem_fuzzyGroups q 0 _ _ hwf.2 k ps]
+    have := find_ofEntries info es k
+    unfold TrieCodec.Builder.find at this
+    rw [this]
+    rfl
+  · rw [h3 _ q hq, tLookup_fuzzy_groups]
+    rfl
+
+/-- `fuzzyMatch` is the prefix relation of C13 position by position: for composable syllables,
+    `startsWith s p` holds iff `s` and `p` agree on every component up to the last one present in
+    `p` (`Chewing.C13.startsWith_iff`) -/
+theorem fuzzyMatch_iff (k q : List Nat) :
+    fuzzyMatch k q = true ↔ k.length = q.length ∧ ∀ (i s p : Nat), k[i]? = some s → q[i]? = some p → startsWith s p = true := by
+  induction k generalizing q with
+  | nil =>
+    cases q with
+    | nil => simp [fuzzyMatch]
+    | cons p q => simp [fuzzyMatch]
+  | cons s k ih =>
+    cases q with
+    | nil => simp [fuzzyMatch]
+    | cons p q =>
+      simp only [fuzzyMatch, Bool.and_eq_true, ih q, List.length_cons, Nat.add_right_cancel_iff]
+      constructor
+      · rintro ⟨h1, h2, h3⟩
+        refine ⟨h2, ?_⟩
+        intro i s' p' hs hp
+        cases i with
+        | zero => simp at hs hp; subst hs; subst hp; exact h1
+        | succ i => exact h3 i s' p' (by simpa using hs) (by simpa using hp)
+      · rintro ⟨h1, h2⟩
+        exact ⟨h2 0 s p rfl rfl, h1, fun i s' p' hs hp => h2 (i + 1) s' p' (by simpa using hs) (by simpa using hp)⟩
 
 end Chewing.C11
